@@ -32,7 +32,9 @@ for m in sorted(glob.glob(os.path.join(V, "seeded", "*", "meta.json"))):
     if after:
         first += " -> **" + after + "** after: " + esc(d.get("strengthening", ""))
     fr = d.get("final_run") or {}
-    if not fr:
+    if d.get("obsolete"):
+        last = "obsolete: " + esc(d["obsolete"][:220])
+    elif not fr:
         last = "-"
     elif not fr.get("applies"):
         last = "patch no longer applies at %s (code rewritten by a later fix)" % fr.get("repo_head")
